@@ -4,7 +4,7 @@ CONSTANTS QCap = 2 MaxPend = 1 MaxOps = 5
           NoInboundFilter = FALSE NoNullCheck = FALSE AnyoneOpens = FALSE
           RepIds = {1, 7}
           TrackHistory = FALSE FlowCache = "none" HostIps = {"x"} HostPorts = {1}
-          StaleVerdict = "queue" HopFollowsPeer = FALSE
+          StaleVerdict = "queue" HopFollowsPeer = FALSE VerdictMemo = "none"
           FlagChoices = {{}, {"BT"}} SignedSrcs = {}
           SrcSet = {"prev"} DkSet = {"v4", "dom4"}
 INVARIANT EmitOnlyAllowed
